@@ -10,6 +10,8 @@
 //	                  (verifhook "smtp.session.start" / "pop3.session.start": accepted, not yet started)
 //	A<i>:S | A<i>:P   connect while the server's accept loop is held between the kernel handing over the
 //	                  connection and wg.Add (listener wrapper, VerifWrapListener): accepted, not yet counted -> parked | refused
+//	ES | EP           the accept loop's next Accept returns a permanent (non-timeout) error; the error must show up on
+//	                  Notify(); the loop exits, open sessions go on, Start keeps waiting for the cancel        -> notified | silent
 //	L<i>              release the held session / the held accept loop, read the greeting   -> 220 | +OK
 //	p<i>:<state>      advance session i: SMTP helo|mail|rcpt|data|body, POP3 user|pass|dele -> last reply
 //	k                 cancel the context; wait until both Start calls have returned         -> .
@@ -53,6 +55,7 @@ import (
 	"crypto/x509"
 	"crypto/x509/pkix"
 	"encoding/pem"
+	"errors"
 	"fmt"
 	"math/big"
 	"net"
@@ -106,8 +109,15 @@ type holdListener struct {
 	p int
 }
 
+// failAccept: the next Accept of server p returns a permanent error (as EMFILE would).
+var failAccept [2]atomic.Bool
+
 func (h *holdListener) Accept() (net.Conn, error) {
 	c, err := h.Listener.Accept()
+	if err == nil && failAccept[h.p].Swap(false) {
+		c.Close()
+		return nil, errors.New("accept: too many open files (injected by the harness)")
+	}
 	if err == nil {
 		if r := holdAccept[h.p].Swap(nil); r != nil {
 			close(r.parked)
@@ -579,6 +589,31 @@ func runLife(ops []string, tlsPOP3 bool) []string {
 		case o == "k":
 			doCancel()
 			outs = append(outs, ".")
+		case o == "ES" || o == "EP":
+			p := 0
+			if o == "EP" {
+				p = 1
+			}
+			failAccept[p].Store(true)
+			if conn, err := net.DialTimeout("tcp", w.addr[p], longWait); err == nil {
+				conn.Close()
+			}
+			var nch <-chan error
+			if p == 0 {
+				nch = w.smtp.Notify()
+			} else {
+				nch = w.pop3.Notify()
+			}
+			select {
+			case err := <-nch:
+				if err != nil {
+					outs = append(outs, "notified")
+				} else {
+					outs = append(outs, "silent")
+				}
+			case <-time.After(longWait):
+				outs = append(outs, "silent")
+			}
 		case o == "G":
 			w.gs.shut()
 			outs = append(outs, ".")
